@@ -168,9 +168,10 @@ Example C04_document_push_discards_open_groups :
   which (run [Push None; Catcode 64 11; Push (Some docB)] init_state) 64 = 11.
 Proof. vm_compute. split; reflexivity. Qed.
 
-(* known finding C04-number-lookahead (program level): TeX.readInteger looks ahead with the expanding iterator, so in
-   {\catcode`\@=11} the closing brace is executed before the assignment; the history the implementation really runs
-   is the second one below, which is not balanced-with-the-assignment-inside, and the change is made outside *)
+(* known finding C04-number-lookahead (program level), narrowed by /repo c654904: when the digits of a number are directly
+   followed by the closing token - {\catcode`\@=11} - TeX.readSequence still pulls that token through the expanding iterator, so the
+   closing brace is executed before the assignment; the history the implementation really runs is the second one below, and the
+   change is made outside.  (With a blank or \relax after the digits the first history is run: main streams.) *)
 Example C04_lookahead_reorder_refuted :
   which (run [Push None; Catcode 64 11; Pop None] init_state) 64 = which init_state 64 /\
   which (run [Push None; Pop None; Catcode 64 11] init_state) 64 <> which init_state 64.
